@@ -60,6 +60,17 @@ pub mod verif {
     pub fn select(pos: usize, b: i8) -> [[u8; 32]; 3] {
         enc(&GePrecomp::select(pos, b))
     }
+
+    /// `a * b + c mod L` through the crate-internal `scalar::muladd` that Ed25519 signing uses
+    pub fn sc_muladd(a: &[u8; 32], b: &[u8; 32], c: &[u8; 32]) -> [u8; 32] {
+        use super::scalar::{muladd, Scalar};
+        muladd(
+            &Scalar::from_bytes(a),
+            &Scalar::from_bytes(b),
+            &Scalar::from_bytes(c),
+        )
+        .to_bytes()
+    }
 }
 pub use ge::{Ge, GeCached, GeP1P1, GePartial, GePrecomp};
 pub use scalar::Scalar;
